@@ -42,6 +42,7 @@
 EXTENDS NewickGrammar
 CONSTANTS Inputs,      \* set of token sequences
           Shipped,     \* subset of the site switches above ({} = intended design)
+          TsrValues,   \* values of the reader option terminating_semicolon_required to explore
           GenSteps,    \* simulation: number of random edits applied before reading
           GenEdits(_)  \* simulation: the edits of a token sequence
 
@@ -64,6 +65,10 @@ variables
   ntax = 0, nchar = 0, \* declared dimensions (0 = none)
   bntax = 0,           \* NTAX declared by the DIMENSIONS statement of the current CHARACTERS / DATA block (0 = none)
   dtype = "standard", inter = FALSE,
+  tsr \in TsrValues,   \* reader option terminating_semicolon_required (tree statements)
+  title = "",          \* TITLE of the TAXA block being read
+  link = "",           \* LINK TAXA = <title> of the block being read
+  nss = NoRows,        \* title -> labels of the taxon namespace defined by that TAXA block
   taxa = {},           \* labels of the current taxon namespace
   rows = NoRows,       \* current matrix: label -> number of states read
   currow = "",
@@ -136,7 +141,7 @@ SkipNext:   Eat(1);
 SkipEnd:  goto Main;
 
 \* ---------------------------------------------------------------- TAXA block
-TaxaBlock: taxa := {}; sret := "TaxaLoop"; goto Semi;
+TaxaBlock: taxa := {}; title := ""; sret := "TaxaLoop"; goto Semi;
 TaxaLoop: while TRUE do
             with t = T(1) do
               if t = EOF then
@@ -144,7 +149,9 @@ TaxaLoop: while TRUE do
                 else Fail() end if
               else
                 Eat(1);
-                if t \in EndToks then sret := "Main"; goto Semi
+                if t \in EndToks then
+                  nss := IF title = "" THEN nss ELSE (title :> taxa) @@ nss;
+                  sret := "Main"; goto Semi
                 elsif t = "TITLE" then ret := "TaxaLoop"; goto Title
                 elsif t = "DIMENSIONS" then ret := "TaxaLoop"; goto Dims
                 elsif t = "TAXLABELS" then goto TaxLabels
@@ -163,13 +170,19 @@ TaxLab:   while tok # ";" do
 TaxLabEnd: goto TaxaLoop;
 
 \* ---------------------------------------------------------------- TITLE, LINK, DIMENSIONS
-Title:    if T(1) # EOF /\ T(2) = ";" then Eat(2); goto Ret else Fail() end if;
+Title:    if T(1) # EOF /\ T(2) = ";" then
+            if ret = "TaxaLoop" then title := T(1) end if;
+            Eat(2); goto Ret
+          else Fail() end if;
 Link:     Eat(1);
 LinkLoop: while tok # ";" do
             if tok = EOF then
               if "link" \in Shipped then skip else Fail() end if
             elsif tok \in {"TAXA", "CHARACTERS"} then
-              if T(1) = "=" /\ T(2) # EOF then Eat(3) else Fail() end if
+              if T(1) = "=" /\ T(2) # EOF then
+                if tok = "TAXA" then link := T(2) end if;
+                Eat(3)
+              else Fail() end if
             else
               if "link" \in Shipped then skip else Eat(1) end if
             end if
@@ -193,7 +206,7 @@ DimLoop:  while tok # ";" do
 DimEnd:   goto Ret;
 
 \* ---------------------------------------------------------------- CHARACTERS / DATA block
-CharBlock: dtype := "standard"; bntax := 0; sret := "CharLoop"; goto Semi;
+CharBlock: dtype := "standard"; bntax := 0; link := ""; sret := "CharLoop"; goto Semi;
 CharLoop: while tok \notin EndToks do
             with t = T(1) do
               Eat(1);
@@ -234,7 +247,11 @@ SymLoop:  while tok # "\"" do
 SymEnd:   if T(1) = EOF then Fail() else Eat(1); goto FmtLoop end if;
 
 Matrix:   if ntax = 0 \/ nchar = 0 then Fail()
-          else rows := NoRows; Eat(1) end if;
+          else
+            rows := NoRows;
+            taxa := IF link \in DOMAIN nss THEN nss[link] ELSE taxa;      \* the linked taxon namespace
+            Eat(1)
+          end if;
 MatLoop:  while tok # ";" /\ tok # EOF do
             if tok \notin taxa /\ Cardinality(taxa) >= ntax then Fail()              \* TooManyTaxaError
             else
@@ -296,7 +313,7 @@ TreeStmt: with e = T(2), o = T(3) do                \* TREE name = <newick state
             end if
           end with;
 TreeRun:  while nw.st = "run" do
-            with n = NwStep(nw, tok) do
+            with n = NwStep(nw, tok, tsr) do
               nw := n;
               if n.adv = 1 then Eat(1) end if
             end with
@@ -345,15 +362,16 @@ Finish:   if outcome = "none" then outcome := "Ok" end if;
 end algorithm; *)
 \* BEGIN TRANSLATION
 VARIABLES pc, input, gen, pos, tok, cap, tdepth, outcome, ret, sret, ntax, 
-          nchar, bntax, dtype, inter, taxa, rows, currow, mats, ntrees, nw
+          nchar, bntax, dtype, inter, tsr, title, link, nss, taxa, rows, 
+          currow, mats, ntrees, nw
 
 (* define statement *)
 T(k) == TokN(input, pos, cap, k)
 
 
 vars == << pc, input, gen, pos, tok, cap, tdepth, outcome, ret, sret, ntax, 
-           nchar, bntax, dtype, inter, taxa, rows, currow, mats, ntrees, nw
-        >>
+           nchar, bntax, dtype, inter, tsr, title, link, nss, taxa, rows, 
+           currow, mats, ntrees, nw >>
 
 Init == (* Global variables *)
         /\ input \in Inputs
@@ -370,6 +388,10 @@ Init == (* Global variables *)
         /\ bntax = 0
         /\ dtype = "standard"
         /\ inter = FALSE
+        /\ tsr \in TsrValues
+        /\ title = ""
+        /\ link = ""
+        /\ nss = NoRows
         /\ taxa = {}
         /\ rows = NoRows
         /\ currow = ""
@@ -386,8 +408,8 @@ Gen == /\ pc = "Gen"
              ELSE /\ pc' = "Start"
                   /\ UNCHANGED << input, gen >>
        /\ UNCHANGED << pos, tok, cap, tdepth, outcome, ret, sret, ntax, nchar, 
-                       bntax, dtype, inter, taxa, rows, currow, mats, ntrees, 
-                       nw >>
+                       bntax, dtype, inter, tsr, title, link, nss, taxa, rows, 
+                       currow, mats, ntrees, nw >>
 
 Start == /\ pc = "Start"
          /\ tok' = TokN(input, pos, cap, 1)
@@ -395,8 +417,8 @@ Start == /\ pc = "Start"
          /\ pos' = AfterN(input, pos, cap, 1)
          /\ pc' = "Hdr"
          /\ UNCHANGED << input, gen, cap, outcome, ret, sret, ntax, nchar, 
-                         bntax, dtype, inter, taxa, rows, currow, mats, ntrees, 
-                         nw >>
+                         bntax, dtype, inter, tsr, title, link, nss, taxa, 
+                         rows, currow, mats, ntrees, nw >>
 
 Hdr == /\ pc = "Hdr"
        /\ IF tok = EOF
@@ -410,8 +432,8 @@ Hdr == /\ pc = "Hdr"
                         ELSE /\ pc' = "Main"
                              /\ UNCHANGED outcome
        /\ UNCHANGED << input, gen, pos, tok, cap, tdepth, ret, sret, ntax, 
-                       nchar, bntax, dtype, inter, taxa, rows, currow, mats, 
-                       ntrees, nw >>
+                       nchar, bntax, dtype, inter, tsr, title, link, nss, taxa, 
+                       rows, currow, mats, ntrees, nw >>
 
 Main == /\ pc = "Main"
         /\ IF tok # EOF
@@ -446,13 +468,14 @@ Main == /\ pc = "Main"
               ELSE /\ pc' = "MainEnd"
                    /\ UNCHANGED << pos, tok, tdepth, outcome >>
         /\ UNCHANGED << input, gen, cap, ret, sret, ntax, nchar, bntax, dtype, 
-                        inter, taxa, rows, currow, mats, ntrees, nw >>
+                        inter, tsr, title, link, nss, taxa, rows, currow, mats, 
+                        ntrees, nw >>
 
 MainEnd == /\ pc = "MainEnd"
            /\ pc' = "Finish"
            /\ UNCHANGED << input, gen, pos, tok, cap, tdepth, outcome, ret, 
-                           sret, ntax, nchar, bntax, dtype, inter, taxa, rows, 
-                           currow, mats, ntrees, nw >>
+                           sret, ntax, nchar, bntax, dtype, inter, tsr, title, 
+                           link, nss, taxa, rows, currow, mats, ntrees, nw >>
 
 Semi == /\ pc = "Semi"
         /\ tok' = TokN(input, pos, cap, 1)
@@ -460,8 +483,8 @@ Semi == /\ pc = "Semi"
         /\ pos' = AfterN(input, pos, cap, 1)
         /\ pc' = "SemiLoop"
         /\ UNCHANGED << input, gen, cap, outcome, ret, sret, ntax, nchar, 
-                        bntax, dtype, inter, taxa, rows, currow, mats, ntrees, 
-                        nw >>
+                        bntax, dtype, inter, tsr, title, link, nss, taxa, rows, 
+                        currow, mats, ntrees, nw >>
 
 SemiLoop == /\ pc = "SemiLoop"
             /\ IF tok # ";" /\ tok # EOF
@@ -472,8 +495,8 @@ SemiLoop == /\ pc = "SemiLoop"
                   ELSE /\ pc' = "SemiRet"
                        /\ UNCHANGED << pos, tok, tdepth >>
             /\ UNCHANGED << input, gen, cap, outcome, ret, sret, ntax, nchar, 
-                            bntax, dtype, inter, taxa, rows, currow, mats, 
-                            ntrees, nw >>
+                            bntax, dtype, inter, tsr, title, link, nss, taxa, 
+                            rows, currow, mats, ntrees, nw >>
 
 SemiRet == /\ pc = "SemiRet"
            /\ IF sret = "TaxaLoop"
@@ -488,8 +511,8 @@ SemiRet == /\ pc = "SemiRet"
                                                              THEN /\ pc' = "SkipNext"
                                                              ELSE /\ pc' = "Main"
            /\ UNCHANGED << input, gen, pos, tok, cap, tdepth, outcome, ret, 
-                           sret, ntax, nchar, bntax, dtype, inter, taxa, rows, 
-                           currow, mats, ntrees, nw >>
+                           sret, ntax, nchar, bntax, dtype, inter, tsr, title, 
+                           link, nss, taxa, rows, currow, mats, ntrees, nw >>
 
 Ret == /\ pc = "Ret"
        /\ IF ret = "TaxaLoop"
@@ -500,8 +523,8 @@ Ret == /\ pc = "Ret"
                                    THEN /\ pc' = "TreesLoop"
                                    ELSE /\ pc' = "SetsLoop"
        /\ UNCHANGED << input, gen, pos, tok, cap, tdepth, outcome, ret, sret, 
-                       ntax, nchar, bntax, dtype, inter, taxa, rows, currow, 
-                       mats, ntrees, nw >>
+                       ntax, nchar, bntax, dtype, inter, tsr, title, link, nss, 
+                       taxa, rows, currow, mats, ntrees, nw >>
 
 SkipLoop == /\ pc = "SkipLoop"
             /\ IF tok \notin EndToks /\ tok # EOF
@@ -510,8 +533,8 @@ SkipLoop == /\ pc = "SkipLoop"
                   ELSE /\ pc' = "SkipEnd"
                        /\ sret' = sret
             /\ UNCHANGED << input, gen, pos, tok, cap, tdepth, outcome, ret, 
-                            ntax, nchar, bntax, dtype, inter, taxa, rows, 
-                            currow, mats, ntrees, nw >>
+                            ntax, nchar, bntax, dtype, inter, tsr, title, link, 
+                            nss, taxa, rows, currow, mats, ntrees, nw >>
 
 SkipNext == /\ pc = "SkipNext"
             /\ tok' = TokN(input, pos, cap, 1)
@@ -519,22 +542,23 @@ SkipNext == /\ pc = "SkipNext"
             /\ pos' = AfterN(input, pos, cap, 1)
             /\ pc' = "SkipLoop"
             /\ UNCHANGED << input, gen, cap, outcome, ret, sret, ntax, nchar, 
-                            bntax, dtype, inter, taxa, rows, currow, mats, 
-                            ntrees, nw >>
+                            bntax, dtype, inter, tsr, title, link, nss, taxa, 
+                            rows, currow, mats, ntrees, nw >>
 
 SkipEnd == /\ pc = "SkipEnd"
            /\ pc' = "Main"
            /\ UNCHANGED << input, gen, pos, tok, cap, tdepth, outcome, ret, 
-                           sret, ntax, nchar, bntax, dtype, inter, taxa, rows, 
-                           currow, mats, ntrees, nw >>
+                           sret, ntax, nchar, bntax, dtype, inter, tsr, title, 
+                           link, nss, taxa, rows, currow, mats, ntrees, nw >>
 
 TaxaBlock == /\ pc = "TaxaBlock"
              /\ taxa' = {}
+             /\ title' = ""
              /\ sret' = "TaxaLoop"
              /\ pc' = "Semi"
              /\ UNCHANGED << input, gen, pos, tok, cap, tdepth, outcome, ret, 
-                             ntax, nchar, bntax, dtype, inter, rows, currow, 
-                             mats, ntrees, nw >>
+                             ntax, nchar, bntax, dtype, inter, tsr, link, nss, 
+                             rows, currow, mats, ntrees, nw >>
 
 TaxaLoop == /\ pc = "TaxaLoop"
             /\ LET t == T(1) IN
@@ -545,12 +569,13 @@ TaxaLoop == /\ pc = "TaxaLoop"
                                     /\ UNCHANGED outcome
                                ELSE /\ outcome' = "ParseError"
                                     /\ pc' = "Finish"
-                         /\ UNCHANGED << pos, tok, tdepth, ret, sret >>
+                         /\ UNCHANGED << pos, tok, tdepth, ret, sret, nss >>
                     ELSE /\ tok' = TokN(input, pos, cap, 1)
                          /\ tdepth' = (IF "tokrec" \in Shipped THEN CommentRun(input, pos) ELSE (IF CommentRun(input, pos) > 0 THEN 1 ELSE 0))
                          /\ pos' = AfterN(input, pos, cap, 1)
                          /\ IF t \in EndToks
-                               THEN /\ sret' = "Main"
+                               THEN /\ nss' = (IF title = "" THEN nss ELSE (title :> taxa) @@ nss)
+                                    /\ sret' = "Main"
                                     /\ pc' = "Semi"
                                     /\ ret' = ret
                                ELSE /\ IF t = "TITLE"
@@ -563,10 +588,11 @@ TaxaLoop == /\ pc = "TaxaLoop"
                                                                 THEN /\ pc' = "TaxLabels"
                                                                 ELSE /\ pc' = "TaxaLoop"
                                                           /\ ret' = ret
-                                    /\ sret' = sret
+                                    /\ UNCHANGED << sret, nss >>
                          /\ UNCHANGED outcome
             /\ UNCHANGED << input, gen, cap, ntax, nchar, bntax, dtype, inter, 
-                            taxa, rows, currow, mats, ntrees, nw >>
+                            tsr, title, link, taxa, rows, currow, mats, ntrees, 
+                            nw >>
 
 TaxLabels == /\ pc = "TaxLabels"
              /\ tok' = TokN(input, pos, cap, 1)
@@ -574,8 +600,8 @@ TaxLabels == /\ pc = "TaxLabels"
              /\ pos' = AfterN(input, pos, cap, 1)
              /\ pc' = "TaxLab"
              /\ UNCHANGED << input, gen, cap, outcome, ret, sret, ntax, nchar, 
-                             bntax, dtype, inter, taxa, rows, currow, mats, 
-                             ntrees, nw >>
+                             bntax, dtype, inter, tsr, title, link, nss, taxa, 
+                             rows, currow, mats, ntrees, nw >>
 
 TaxLab == /\ pc = "TaxLab"
           /\ IF tok # ";"
@@ -605,26 +631,33 @@ TaxLab == /\ pc = "TaxLab"
                 ELSE /\ pc' = "TaxLabEnd"
                      /\ UNCHANGED << pos, tok, tdepth, outcome, taxa >>
           /\ UNCHANGED << input, gen, cap, ret, sret, ntax, nchar, bntax, 
-                          dtype, inter, rows, currow, mats, ntrees, nw >>
+                          dtype, inter, tsr, title, link, nss, rows, currow, 
+                          mats, ntrees, nw >>
 
 TaxLabEnd == /\ pc = "TaxLabEnd"
              /\ pc' = "TaxaLoop"
              /\ UNCHANGED << input, gen, pos, tok, cap, tdepth, outcome, ret, 
-                             sret, ntax, nchar, bntax, dtype, inter, taxa, 
-                             rows, currow, mats, ntrees, nw >>
+                             sret, ntax, nchar, bntax, dtype, inter, tsr, 
+                             title, link, nss, taxa, rows, currow, mats, 
+                             ntrees, nw >>
 
 Title == /\ pc = "Title"
          /\ IF T(1) # EOF /\ T(2) = ";"
-               THEN /\ tok' = TokN(input, pos, cap, 2)
+               THEN /\ IF ret = "TaxaLoop"
+                          THEN /\ title' = T(1)
+                          ELSE /\ TRUE
+                               /\ title' = title
+                    /\ tok' = TokN(input, pos, cap, 2)
                     /\ tdepth' = (IF "tokrec" \in Shipped THEN CommentRun(input, pos) ELSE (IF CommentRun(input, pos) > 0 THEN 1 ELSE 0))
                     /\ pos' = AfterN(input, pos, cap, 2)
                     /\ pc' = "Ret"
                     /\ UNCHANGED outcome
                ELSE /\ outcome' = "ParseError"
                     /\ pc' = "Finish"
-                    /\ UNCHANGED << pos, tok, tdepth >>
+                    /\ UNCHANGED << pos, tok, tdepth, title >>
          /\ UNCHANGED << input, gen, cap, ret, sret, ntax, nchar, bntax, dtype, 
-                         inter, taxa, rows, currow, mats, ntrees, nw >>
+                         inter, tsr, link, nss, taxa, rows, currow, mats, 
+                         ntrees, nw >>
 
 Link == /\ pc = "Link"
         /\ tok' = TokN(input, pos, cap, 1)
@@ -632,8 +665,8 @@ Link == /\ pc = "Link"
         /\ pos' = AfterN(input, pos, cap, 1)
         /\ pc' = "LinkLoop"
         /\ UNCHANGED << input, gen, cap, outcome, ret, sret, ntax, nchar, 
-                        bntax, dtype, inter, taxa, rows, currow, mats, ntrees, 
-                        nw >>
+                        bntax, dtype, inter, tsr, title, link, nss, taxa, rows, 
+                        currow, mats, ntrees, nw >>
 
 LinkLoop == /\ pc = "LinkLoop"
             /\ IF tok # ";"
@@ -644,10 +677,14 @@ LinkLoop == /\ pc = "LinkLoop"
                                              /\ UNCHANGED outcome
                                         ELSE /\ outcome' = "ParseError"
                                              /\ pc' = "Finish"
-                                  /\ UNCHANGED << pos, tok, tdepth >>
+                                  /\ UNCHANGED << pos, tok, tdepth, link >>
                              ELSE /\ IF tok \in {"TAXA", "CHARACTERS"}
                                         THEN /\ IF T(1) = "=" /\ T(2) # EOF
-                                                   THEN /\ tok' = TokN(input, pos, cap, 3)
+                                                   THEN /\ IF tok = "TAXA"
+                                                              THEN /\ link' = T(2)
+                                                              ELSE /\ TRUE
+                                                                   /\ link' = link
+                                                        /\ tok' = TokN(input, pos, cap, 3)
                                                         /\ tdepth' = (IF "tokrec" \in Shipped THEN CommentRun(input, pos) ELSE (IF CommentRun(input, pos) > 0 THEN 1 ELSE 0))
                                                         /\ pos' = AfterN(input, pos, cap, 3)
                                                         /\ pc' = "LinkLoop"
@@ -656,7 +693,8 @@ LinkLoop == /\ pc = "LinkLoop"
                                                         /\ pc' = "Finish"
                                                         /\ UNCHANGED << pos, 
                                                                         tok, 
-                                                                        tdepth >>
+                                                                        tdepth, 
+                                                                        link >>
                                         ELSE /\ IF "link" \in Shipped
                                                    THEN /\ TRUE
                                                         /\ UNCHANGED << pos, 
@@ -666,17 +704,18 @@ LinkLoop == /\ pc = "LinkLoop"
                                                         /\ tdepth' = (IF "tokrec" \in Shipped THEN CommentRun(input, pos) ELSE (IF CommentRun(input, pos) > 0 THEN 1 ELSE 0))
                                                         /\ pos' = AfterN(input, pos, cap, 1)
                                              /\ pc' = "LinkLoop"
-                                             /\ UNCHANGED outcome
+                                             /\ UNCHANGED << outcome, link >>
                   ELSE /\ pc' = "LinkEnd"
-                       /\ UNCHANGED << pos, tok, tdepth, outcome >>
+                       /\ UNCHANGED << pos, tok, tdepth, outcome, link >>
             /\ UNCHANGED << input, gen, cap, ret, sret, ntax, nchar, bntax, 
-                            dtype, inter, taxa, rows, currow, mats, ntrees, nw >>
+                            dtype, inter, tsr, title, nss, taxa, rows, currow, 
+                            mats, ntrees, nw >>
 
 LinkEnd == /\ pc = "LinkEnd"
            /\ pc' = "Ret"
            /\ UNCHANGED << input, gen, pos, tok, cap, tdepth, outcome, ret, 
-                           sret, ntax, nchar, bntax, dtype, inter, taxa, rows, 
-                           currow, mats, ntrees, nw >>
+                           sret, ntax, nchar, bntax, dtype, inter, tsr, title, 
+                           link, nss, taxa, rows, currow, mats, ntrees, nw >>
 
 Dims == /\ pc = "Dims"
         /\ tok' = TokN(input, pos, cap, 1)
@@ -684,8 +723,8 @@ Dims == /\ pc = "Dims"
         /\ pos' = AfterN(input, pos, cap, 1)
         /\ pc' = "DimLoop"
         /\ UNCHANGED << input, gen, cap, outcome, ret, sret, ntax, nchar, 
-                        bntax, dtype, inter, taxa, rows, currow, mats, ntrees, 
-                        nw >>
+                        bntax, dtype, inter, tsr, title, link, nss, taxa, rows, 
+                        currow, mats, ntrees, nw >>
 
 DimLoop == /\ pc = "DimLoop"
            /\ IF tok # ";"
@@ -734,23 +773,25 @@ DimLoop == /\ pc = "DimLoop"
                  ELSE /\ pc' = "DimEnd"
                       /\ UNCHANGED << pos, tok, tdepth, outcome, ntax, nchar, 
                                       bntax >>
-           /\ UNCHANGED << input, gen, cap, ret, sret, dtype, inter, taxa, 
-                           rows, currow, mats, ntrees, nw >>
+           /\ UNCHANGED << input, gen, cap, ret, sret, dtype, inter, tsr, 
+                           title, link, nss, taxa, rows, currow, mats, ntrees, 
+                           nw >>
 
 DimEnd == /\ pc = "DimEnd"
           /\ pc' = "Ret"
           /\ UNCHANGED << input, gen, pos, tok, cap, tdepth, outcome, ret, 
-                          sret, ntax, nchar, bntax, dtype, inter, taxa, rows, 
-                          currow, mats, ntrees, nw >>
+                          sret, ntax, nchar, bntax, dtype, inter, tsr, title, 
+                          link, nss, taxa, rows, currow, mats, ntrees, nw >>
 
 CharBlock == /\ pc = "CharBlock"
              /\ dtype' = "standard"
              /\ bntax' = 0
+             /\ link' = ""
              /\ sret' = "CharLoop"
              /\ pc' = "Semi"
              /\ UNCHANGED << input, gen, pos, tok, cap, tdepth, outcome, ret, 
-                             ntax, nchar, inter, taxa, rows, currow, mats, 
-                             ntrees, nw >>
+                             ntax, nchar, inter, tsr, title, nss, taxa, rows, 
+                             currow, mats, ntrees, nw >>
 
 CharLoop == /\ pc = "CharLoop"
             /\ IF tok \notin EndToks
@@ -788,14 +829,15 @@ CharLoop == /\ pc = "CharLoop"
                   ELSE /\ pc' = "CharEnd"
                        /\ UNCHANGED << pos, tok, tdepth, outcome, ret >>
             /\ UNCHANGED << input, gen, cap, sret, ntax, nchar, bntax, dtype, 
-                            inter, taxa, rows, currow, mats, ntrees, nw >>
+                            inter, tsr, title, link, nss, taxa, rows, currow, 
+                            mats, ntrees, nw >>
 
 CharEnd == /\ pc = "CharEnd"
            /\ sret' = "Main"
            /\ pc' = "Semi"
            /\ UNCHANGED << input, gen, pos, tok, cap, tdepth, outcome, ret, 
-                           ntax, nchar, bntax, dtype, inter, taxa, rows, 
-                           currow, mats, ntrees, nw >>
+                           ntax, nchar, bntax, dtype, inter, tsr, title, link, 
+                           nss, taxa, rows, currow, mats, ntrees, nw >>
 
 Format == /\ pc = "Format"
           /\ tok' = TokN(input, pos, cap, 1)
@@ -803,8 +845,8 @@ Format == /\ pc = "Format"
           /\ pos' = AfterN(input, pos, cap, 1)
           /\ pc' = "FmtLoop"
           /\ UNCHANGED << input, gen, cap, outcome, ret, sret, ntax, nchar, 
-                          bntax, dtype, inter, taxa, rows, currow, mats, 
-                          ntrees, nw >>
+                          bntax, dtype, inter, tsr, title, link, nss, taxa, 
+                          rows, currow, mats, ntrees, nw >>
 
 FmtLoop == /\ pc = "FmtLoop"
            /\ IF tok # ";"
@@ -895,14 +937,15 @@ FmtLoop == /\ pc = "FmtLoop"
                                             /\ dtype' = dtype
                  ELSE /\ pc' = "FmtEnd"
                       /\ UNCHANGED << pos, tok, tdepth, outcome, dtype, inter >>
-           /\ UNCHANGED << input, gen, cap, ret, sret, ntax, nchar, bntax, 
-                           taxa, rows, currow, mats, ntrees, nw >>
+           /\ UNCHANGED << input, gen, cap, ret, sret, ntax, nchar, bntax, tsr, 
+                           title, link, nss, taxa, rows, currow, mats, ntrees, 
+                           nw >>
 
 FmtEnd == /\ pc = "FmtEnd"
           /\ pc' = "CharLoop"
           /\ UNCHANGED << input, gen, pos, tok, cap, tdepth, outcome, ret, 
-                          sret, ntax, nchar, bntax, dtype, inter, taxa, rows, 
-                          currow, mats, ntrees, nw >>
+                          sret, ntax, nchar, bntax, dtype, inter, tsr, title, 
+                          link, nss, taxa, rows, currow, mats, ntrees, nw >>
 
 SymLoop == /\ pc = "SymLoop"
            /\ IF tok # "\""
@@ -918,7 +961,8 @@ SymLoop == /\ pc = "SymLoop"
                  ELSE /\ pc' = "SymEnd"
                       /\ UNCHANGED << pos, tok, tdepth, outcome >>
            /\ UNCHANGED << input, gen, cap, ret, sret, ntax, nchar, bntax, 
-                           dtype, inter, taxa, rows, currow, mats, ntrees, nw >>
+                           dtype, inter, tsr, title, link, nss, taxa, rows, 
+                           currow, mats, ntrees, nw >>
 
 SymEnd == /\ pc = "SymEnd"
           /\ IF T(1) = EOF
@@ -931,21 +975,24 @@ SymEnd == /\ pc = "SymEnd"
                      /\ pc' = "FmtLoop"
                      /\ UNCHANGED outcome
           /\ UNCHANGED << input, gen, cap, ret, sret, ntax, nchar, bntax, 
-                          dtype, inter, taxa, rows, currow, mats, ntrees, nw >>
+                          dtype, inter, tsr, title, link, nss, taxa, rows, 
+                          currow, mats, ntrees, nw >>
 
 Matrix == /\ pc = "Matrix"
           /\ IF ntax = 0 \/ nchar = 0
                 THEN /\ outcome' = "ParseError"
                      /\ pc' = "Finish"
-                     /\ UNCHANGED << pos, tok, tdepth, rows >>
+                     /\ UNCHANGED << pos, tok, tdepth, taxa, rows >>
                 ELSE /\ rows' = NoRows
+                     /\ taxa' = (IF link \in DOMAIN nss THEN nss[link] ELSE taxa)
                      /\ tok' = TokN(input, pos, cap, 1)
                      /\ tdepth' = (IF "tokrec" \in Shipped THEN CommentRun(input, pos) ELSE (IF CommentRun(input, pos) > 0 THEN 1 ELSE 0))
                      /\ pos' = AfterN(input, pos, cap, 1)
                      /\ pc' = "MatLoop"
                      /\ UNCHANGED outcome
           /\ UNCHANGED << input, gen, cap, ret, sret, ntax, nchar, bntax, 
-                          dtype, inter, taxa, currow, mats, ntrees, nw >>
+                          dtype, inter, tsr, title, link, nss, currow, mats, 
+                          ntrees, nw >>
 
 MatLoop == /\ pc = "MatLoop"
            /\ IF tok # ";" /\ tok # EOF
@@ -962,7 +1009,8 @@ MatLoop == /\ pc = "MatLoop"
                  ELSE /\ pc' = "MatEnd"
                       /\ UNCHANGED << cap, outcome, taxa, rows, currow >>
            /\ UNCHANGED << input, gen, pos, tok, tdepth, ret, sret, ntax, 
-                           nchar, bntax, dtype, inter, mats, ntrees, nw >>
+                           nchar, bntax, dtype, inter, tsr, title, link, nss, 
+                           mats, ntrees, nw >>
 
 MatEnd == /\ pc = "MatEnd"
           /\ cap' = FALSE
@@ -974,7 +1022,8 @@ MatEnd == /\ pc = "MatEnd"
                      /\ pc' = "CharLoop"
                      /\ UNCHANGED outcome
           /\ UNCHANGED << input, gen, pos, tok, tdepth, ret, sret, ntax, nchar, 
-                          bntax, dtype, inter, taxa, rows, currow, ntrees, nw >>
+                          bntax, dtype, inter, tsr, title, link, nss, taxa, 
+                          rows, currow, ntrees, nw >>
 
 Row == /\ pc = "Row"
        /\ IF rows[currow] < nchar
@@ -1039,14 +1088,15 @@ Row == /\ pc = "Row"
              ELSE /\ pc' = "RowEnd"
                   /\ UNCHANGED << pos, tok, tdepth, outcome, rows >>
        /\ UNCHANGED << input, gen, cap, ret, sret, ntax, nchar, bntax, dtype, 
-                       inter, taxa, currow, mats, ntrees, nw >>
+                       inter, tsr, title, link, nss, taxa, currow, mats, 
+                       ntrees, nw >>
 
 RowEnd == /\ pc = "RowEnd"
           /\ cap' = FALSE
           /\ pc' = "RowNext"
           /\ UNCHANGED << input, gen, pos, tok, tdepth, outcome, ret, sret, 
-                          ntax, nchar, bntax, dtype, inter, taxa, rows, currow, 
-                          mats, ntrees, nw >>
+                          ntax, nchar, bntax, dtype, inter, tsr, title, link, 
+                          nss, taxa, rows, currow, mats, ntrees, nw >>
 
 RowNext == /\ pc = "RowNext"
            /\ tok' = TokN(input, pos, cap, 1)
@@ -1054,8 +1104,8 @@ RowNext == /\ pc = "RowNext"
            /\ pos' = AfterN(input, pos, cap, 1)
            /\ pc' = "MatLoop"
            /\ UNCHANGED << input, gen, cap, outcome, ret, sret, ntax, nchar, 
-                           bntax, dtype, inter, taxa, rows, currow, mats, 
-                           ntrees, nw >>
+                           bntax, dtype, inter, tsr, title, link, nss, taxa, 
+                           rows, currow, mats, ntrees, nw >>
 
 Multi == /\ pc = "Multi"
          /\ IF tok \notin {")", "}"}
@@ -1071,21 +1121,22 @@ Multi == /\ pc = "Multi"
                ELSE /\ pc' = "MultiEnd"
                     /\ UNCHANGED << pos, tok, tdepth, outcome >>
          /\ UNCHANGED << input, gen, cap, ret, sret, ntax, nchar, bntax, dtype, 
-                         inter, taxa, rows, currow, mats, ntrees, nw >>
+                         inter, tsr, title, link, nss, taxa, rows, currow, 
+                         mats, ntrees, nw >>
 
 MultiEnd == /\ pc = "MultiEnd"
             /\ rows' = [rows EXCEPT ![currow] = rows[currow] + 1]
             /\ pc' = "Row"
             /\ UNCHANGED << input, gen, pos, tok, cap, tdepth, outcome, ret, 
-                            sret, ntax, nchar, bntax, dtype, inter, taxa, 
-                            currow, mats, ntrees, nw >>
+                            sret, ntax, nchar, bntax, dtype, inter, tsr, title, 
+                            link, nss, taxa, currow, mats, ntrees, nw >>
 
 TreesBlock == /\ pc = "TreesBlock"
               /\ sret' = "TreesLoop"
               /\ pc' = "Semi"
               /\ UNCHANGED << input, gen, pos, tok, cap, tdepth, outcome, ret, 
-                              ntax, nchar, bntax, dtype, inter, taxa, rows, 
-                              currow, mats, ntrees, nw >>
+                              ntax, nchar, bntax, dtype, inter, tsr, title, 
+                              link, nss, taxa, rows, currow, mats, ntrees, nw >>
 
 TreesLoop == /\ pc = "TreesLoop"
              /\ IF tok \notin EndToks
@@ -1119,14 +1170,15 @@ TreesLoop == /\ pc = "TreesLoop"
                    ELSE /\ pc' = "TreesEnd"
                         /\ UNCHANGED << pos, tok, tdepth, outcome, ret >>
              /\ UNCHANGED << input, gen, cap, sret, ntax, nchar, bntax, dtype, 
-                             inter, taxa, rows, currow, mats, ntrees, nw >>
+                             inter, tsr, title, link, nss, taxa, rows, currow, 
+                             mats, ntrees, nw >>
 
 TreesEnd == /\ pc = "TreesEnd"
             /\ sret' = "Main"
             /\ pc' = "Semi"
             /\ UNCHANGED << input, gen, pos, tok, cap, tdepth, outcome, ret, 
-                            ntax, nchar, bntax, dtype, inter, taxa, rows, 
-                            currow, mats, ntrees, nw >>
+                            ntax, nchar, bntax, dtype, inter, tsr, title, link, 
+                            nss, taxa, rows, currow, mats, ntrees, nw >>
 
 TreeStmt == /\ pc = "TreeStmt"
             /\ LET e == T(2) IN
@@ -1148,11 +1200,12 @@ TreeStmt == /\ pc = "TreeStmt"
                                       /\ pc' = "TreeRun"
                                       /\ UNCHANGED outcome
             /\ UNCHANGED << input, gen, cap, ret, sret, ntax, nchar, bntax, 
-                            dtype, inter, taxa, rows, currow, mats, ntrees >>
+                            dtype, inter, tsr, title, link, nss, taxa, rows, 
+                            currow, mats, ntrees >>
 
 TreeRun == /\ pc = "TreeRun"
            /\ IF nw.st = "run"
-                 THEN /\ LET n == NwStep(nw, tok) IN
+                 THEN /\ LET n == NwStep(nw, tok, tsr) IN
                            /\ nw' = n
                            /\ IF n.adv = 1
                                  THEN /\ tok' = TokN(input, pos, cap, 1)
@@ -1164,8 +1217,8 @@ TreeRun == /\ pc = "TreeRun"
                  ELSE /\ pc' = "TreeDone"
                       /\ UNCHANGED << pos, tok, tdepth, nw >>
            /\ UNCHANGED << input, gen, cap, outcome, ret, sret, ntax, nchar, 
-                           bntax, dtype, inter, taxa, rows, currow, mats, 
-                           ntrees >>
+                           bntax, dtype, inter, tsr, title, link, nss, taxa, 
+                           rows, currow, mats, ntrees >>
 
 TreeDone == /\ pc = "TreeDone"
             /\ IF nw.st = "err"
@@ -1177,8 +1230,8 @@ TreeDone == /\ pc = "TreeDone"
                        /\ pc' = "TreeSemis"
                        /\ UNCHANGED outcome
             /\ UNCHANGED << input, gen, pos, tok, cap, tdepth, ret, sret, ntax, 
-                            nchar, bntax, dtype, inter, taxa, rows, currow, 
-                            mats >>
+                            nchar, bntax, dtype, inter, tsr, title, link, nss, 
+                            taxa, rows, currow, mats >>
 
 TreeSemis == /\ pc = "TreeSemis"
              /\ IF tok = ";"
@@ -1189,16 +1242,16 @@ TreeSemis == /\ pc = "TreeSemis"
                    ELSE /\ pc' = "TreeNext"
                         /\ UNCHANGED << pos, tok, tdepth >>
              /\ UNCHANGED << input, gen, cap, outcome, ret, sret, ntax, nchar, 
-                             bntax, dtype, inter, taxa, rows, currow, mats, 
-                             ntrees, nw >>
+                             bntax, dtype, inter, tsr, title, link, nss, taxa, 
+                             rows, currow, mats, ntrees, nw >>
 
 TreeNext == /\ pc = "TreeNext"
             /\ IF tok = "TREE"
                   THEN /\ pc' = "TreeStmt"
                   ELSE /\ pc' = "TreesLoop"
             /\ UNCHANGED << input, gen, pos, tok, cap, tdepth, outcome, ret, 
-                            sret, ntax, nchar, bntax, dtype, inter, taxa, rows, 
-                            currow, mats, ntrees, nw >>
+                            sret, ntax, nchar, bntax, dtype, inter, tsr, title, 
+                            link, nss, taxa, rows, currow, mats, ntrees, nw >>
 
 TransLoop == /\ pc = "TransLoop"
              /\ LET a == T(1) IN
@@ -1225,15 +1278,15 @@ TransLoop == /\ pc = "TransLoop"
                                                     /\ pc' = "TransLoop"
                                                     /\ UNCHANGED outcome
              /\ UNCHANGED << input, gen, cap, ret, sret, ntax, nchar, bntax, 
-                             dtype, inter, taxa, rows, currow, mats, ntrees, 
-                             nw >>
+                             dtype, inter, tsr, title, link, nss, taxa, rows, 
+                             currow, mats, ntrees, nw >>
 
 SetsBlock == /\ pc = "SetsBlock"
              /\ sret' = "SetsLoop"
              /\ pc' = "Semi"
              /\ UNCHANGED << input, gen, pos, tok, cap, tdepth, outcome, ret, 
-                             ntax, nchar, bntax, dtype, inter, taxa, rows, 
-                             currow, mats, ntrees, nw >>
+                             ntax, nchar, bntax, dtype, inter, tsr, title, 
+                             link, nss, taxa, rows, currow, mats, ntrees, nw >>
 
 SetsLoop == /\ pc = "SetsLoop"
             /\ IF tok \notin EndToks
@@ -1264,14 +1317,15 @@ SetsLoop == /\ pc = "SetsLoop"
                   ELSE /\ pc' = "SetsEnd"
                        /\ UNCHANGED << pos, tok, tdepth, outcome, ret >>
             /\ UNCHANGED << input, gen, cap, sret, ntax, nchar, bntax, dtype, 
-                            inter, taxa, rows, currow, mats, ntrees, nw >>
+                            inter, tsr, title, link, nss, taxa, rows, currow, 
+                            mats, ntrees, nw >>
 
 SetsEnd == /\ pc = "SetsEnd"
            /\ sret' = "Main"
            /\ pc' = "Semi"
            /\ UNCHANGED << input, gen, pos, tok, cap, tdepth, outcome, ret, 
-                           ntax, nchar, bntax, dtype, inter, taxa, rows, 
-                           currow, mats, ntrees, nw >>
+                           ntax, nchar, bntax, dtype, inter, tsr, title, link, 
+                           nss, taxa, rows, currow, mats, ntrees, nw >>
 
 Charset == /\ pc = "Charset"
            /\ IF mats = <<>> \/ T(1) = EOF \/ T(2) # "=" \/ T(3) = EOF
@@ -1284,7 +1338,8 @@ Charset == /\ pc = "Charset"
                       /\ pc' = "PosLoop"
                       /\ UNCHANGED outcome
            /\ UNCHANGED << input, gen, cap, ret, sret, ntax, nchar, bntax, 
-                           dtype, inter, taxa, rows, currow, mats, ntrees, nw >>
+                           dtype, inter, tsr, title, link, nss, taxa, rows, 
+                           currow, mats, ntrees, nw >>
 
 PosLoop == /\ pc = "PosLoop"
            /\ IF tok \notin {";", ",", EOF}
@@ -1319,13 +1374,14 @@ PosLoop == /\ pc = "PosLoop"
                  ELSE /\ pc' = "PosEnd"
                       /\ UNCHANGED << pos, tok, tdepth, outcome >>
            /\ UNCHANGED << input, gen, cap, ret, sret, ntax, nchar, bntax, 
-                           dtype, inter, taxa, rows, currow, mats, ntrees, nw >>
+                           dtype, inter, tsr, title, link, nss, taxa, rows, 
+                           currow, mats, ntrees, nw >>
 
 PosEnd == /\ pc = "PosEnd"
           /\ pc' = "SetsLoop"
           /\ UNCHANGED << input, gen, pos, tok, cap, tdepth, outcome, ret, 
-                          sret, ntax, nchar, bntax, dtype, inter, taxa, rows, 
-                          currow, mats, ntrees, nw >>
+                          sret, ntax, nchar, bntax, dtype, inter, tsr, title, 
+                          link, nss, taxa, rows, currow, mats, ntrees, nw >>
 
 Finish == /\ pc = "Finish"
           /\ IF outcome = "none"
@@ -1334,8 +1390,8 @@ Finish == /\ pc = "Finish"
                      /\ UNCHANGED outcome
           /\ pc' = "Done"
           /\ UNCHANGED << input, gen, pos, tok, cap, tdepth, ret, sret, ntax, 
-                          nchar, bntax, dtype, inter, taxa, rows, currow, mats, 
-                          ntrees, nw >>
+                          nchar, bntax, dtype, inter, tsr, title, link, nss, 
+                          taxa, rows, currow, mats, ntrees, nw >>
 
 (* Allow infinite stuttering to prevent deadlock on termination. *)
 Terminating == pc = "Done" /\ UNCHANGED vars
